@@ -121,7 +121,7 @@ fn band_of(path: &str) -> Option<u32> {
 }
 
 /// Write-once oracle for operations that must only add (backups, alone or racing).
-fn check_additive(prop: &str, what: &str, pre: &MemStore, post: &MemStore, log: &[OpRecord], out: &mut Vec<Violation>, acc: &mut Acc) {
+fn check_additive(prop: &str, what: &str, pre: &MemStore, post: &MemStore, log: &[OpRecord], out: &mut Vec<Violation>, acc: &mut Acc, single_actor: bool) {
     for (p, bytes) in pre.files() {
         if bytes.is_empty() {
             if post.file(p).map(|b| !b.is_empty()).unwrap_or(false) {
@@ -154,6 +154,16 @@ fn check_additive(prop: &str, what: &str, pre: &MemStore, post: &MemStore, log: 
     // a new version gets an id above every existing one
     let existing: Vec<u32> = pre.children("").unwrap_or_default().into_iter().filter_map(|(n, _)| format::parse_band_dir(&n)).collect();
     for r in log {
+        // a lone backup choosing the id of a band directory that already exists has not
+        // chosen "an id above every existing one", whether or not the write that follows
+        // is then refused (in a race the loser legitimately arrives second)
+        if single_actor && r.verb == "mkdir" && r.pre == Pre::Dir && !r.path.contains('/') {
+            if let Some(id) = format::parse_band_dir(&r.path) {
+                if existing.contains(&id) {
+                    out.push(Violation::new(prop, "new_band_id_above_existing", "existing_id_chosen", format!("{what}: tried to create b{id:04}, which already existed ({existing:?})")));
+                }
+            }
+        }
         if r.verb == "mkdir" && r.res == Res::Ok && r.pre == Pre::Absent && !r.path.contains('/') {
             if let Some(id) = format::parse_band_dir(&r.path) {
                 if existing.iter().any(|e| *e >= id) {
@@ -225,7 +235,7 @@ fn execute_found(sc: &Scenario, acc: &mut Acc) -> Result<Vec<Found>, String> {
                     if let Outcome::Panicked(p) = &b.outcome {
                         out.push(Violation::new(prop, "backup_no_panic", panic_disc(p), format!("step {si}: {}", p.msg)));
                     }
-                    check_additive(prop, &format!("step {si} (backup)"), &pre, &post, &log, &mut out, acc);
+                    check_additive(prop, &format!("step {si} (backup)"), &pre, &post, &log, &mut out, acc, true);
                 }
                 (StepResult::Delete(_), Step::Delete { bands, dry_run, .. }) => {
                     acc.evaluations += 1;
@@ -311,7 +321,7 @@ fn execute_found(sc: &Scenario, acc: &mut Acc) -> Result<Vec<Found>, String> {
                 out.push(Violation::new(prop, "backup_no_panic", panic_disc(p), format!("racing backup panicked at {}:{}: {}", p.file, p.line, p.msg)));
             }
         }
-        check_additive(prop, "two racing backups", &pre, &post, &log, &mut out, acc);
+        check_additive(prop, "two racing backups", &pre, &post, &log, &mut out, acc, false);
         // at most one process writes under any one band directory
         let mut writers: BTreeMap<u32, BTreeSet<u32>> = BTreeMap::new();
         let mut reached: BTreeSet<u32> = BTreeSet::new();
